@@ -1,4 +1,5 @@
 import TongoProofs.Lemmas.CellHashTree
+import TongoGen.LevelMask
 /-! Property C02 — cell hash, depth and level follow the TON representation-hash definition.
 
 Model: `Tongo.Cell.info` = `newImmutableCell` on a whole tree (`computeInfo`/`levelStep` per cell, line by line),
@@ -7,6 +8,19 @@ Specification: `Tongo.Spec.hashAt`/`depthAt`/`level` (TongoModel/CellHashSpec.le
 parameter of every statement. Property theorems only; helper lemmas live in TongoProofs/Lemmas/CellHash*.lean. -/
 namespace Tongo.C02
 open Tongo Tongo.CellHashLemmas
+
+/-- **Tie to the source.** The definitions REGENERATED from boc/level_mask.go on every run (translator X4,
+`TongoGen/LevelMask.lean`: `bits.LeadingZeros32`, `bits.OnesCount32`, 32-bit shifts with Go semantics) equal the hand
+model `Tongo.LevelMask.*` used by the hash model, for all masks 0..7 and levels 0..4: a change to level_mask.go changes
+the regenerated file and breaks this obligation. Finite table, kernel evaluation. -/
+theorem gen_levelmask : ∀ m : Fin 8, ∀ l : Fin 5,
+    (Gen.LevelMask.Level (BitVec.ofNat 32 m.val)).toNat = LevelMask.level m.val ∧
+    (Gen.LevelMask.HashIndex (BitVec.ofNat 32 m.val)).toNat = LevelMask.hashIndex m.val ∧
+    (Gen.LevelMask.HashesCount (BitVec.ofNat 32 m.val)).toNat = LevelMask.hashesCount m.val ∧
+    (Gen.LevelMask.Apply (BitVec.ofNat 32 m.val) (BitVec.ofNat 64 l.val)).toNat = LevelMask.apply m.val l.val ∧
+    Gen.LevelMask.IsSignificant (BitVec.ofNat 32 m.val) (BitVec.ofNat 32 l.val) =
+      LevelMask.isSignificant m.val l.val := by
+  decide +kernel
 
 /-- `levelMask.{Apply, HashIndex, IsSignificant, Level}` (model of boc/level_mask.go) agree with the bit-list
 definitions of the specification on every 3-bit mask and every level 0..4: `Apply l` keeps the bits below `l`,
